@@ -229,6 +229,10 @@ pub fn replay(prop: &'static str, case: &serde_json::Value) -> i32 {
     if case.get("reuse_case").is_some() {
         return crate::props::reuse::replay(prop, case, &[reuse_dim(prop)]);
     }
+    if case["tag"].as_str().map_or(false, |t| t.starts_with("reentrant-footer")) {
+        println!("this finding needs the re-entrant expected-footer argument of the run: re-run `./check {} quick`", prop);
+        return 2;
+    }
     let (Ok(ic), Ok(pres)) = (serde_json::from_value::<IssueCase>(case["issue"].clone()), serde_json::from_value::<Presentation>(case["presentation"].clone())) else {
         crate::report::machinery_error("replay file lacks issue / presentation");
     };
@@ -790,6 +794,33 @@ pub fn run_c07(tier: &str) -> i32 {
                     let mut pres = Presentation::of(&case_y, &named_x);
                     pres.layer = Layer::ALL[li];
                     check("C07", "authentic-for-Y-but-header-names-X", &case_y, &ty, &pres, None, &mut acc);
+                    // the same at the core layer with an expected-footer argument of the caller's own type whose
+                    // conversion presents a text to an entry point of X on this thread (re-entrancy inside the call)
+                    if x.enabled() && li == 0 {
+                        let kx_other = domains::key_pool(*x)[0].clone();
+                        let junk_x = format!("{}AAAA", x.header());
+                        let rf = crate::adapter::ReFooter { footer: footers[fi].as_deref(), other: *x, other_key: &kx_other.pk, other_text: &junk_x };
+                        let control = crate::adapter::core_present_refooter(*y, &ky.pk, &ty, rf);
+                        let relabelled = crate::adapter::core_present_refooter(*y, &ky.pk, &named_x, rf);
+                        acc.executions += 2;
+                        acc.impl_calls += 2;
+                        if !matches!(&control, Out::Ok(m) if *m == msgs[mi]) {
+                            acc.violate(
+                                format!("C07|{}|core|reentrant-footer-argument|control-rejected", y.name()),
+                                format!("an authentic {} token presented with an expected-footer argument whose conversion calls a {} entry point: {} (expected the message)", y.name(), x.name(), control.short()),
+                                json!({"issue": case_y, "issued_token": ty, "presentation": Presentation::of(&case_y, &ty), "tag": "reentrant-footer-control"}),
+                            );
+                        }
+                        if !relabelled.is_err() {
+                            acc.violate(
+                                format!("C07|{}|core|reentrant-footer-argument|accepted", y.name()),
+                                format!("a token authentic for {} but naming {} in its header, presented to {} with an expected-footer argument whose conversion calls a {} entry point on the same thread: {}", y.name(), x.name(), y.name(), x.name(), relabelled.short()),
+                                json!({"issue": case_y, "issued_token": ty, "presentation": Presentation::of(&case_y, &named_x), "tag": "reentrant-footer"}),
+                            );
+                        } else {
+                            acc.bump("reentrant-footer-argument:rejected");
+                        }
+                    }
                     // X's header in front of the whole Y token (the string names X; Y's token follows), and Y's own
                     // header after X's in the first two segments
                     for (tag, text) in [
